@@ -89,6 +89,11 @@ def ex(e):
         return ["stmtexpr", ct(e[2]), Q(e[3]), ex(e[4])]
     if k == "seqexpr":
         return ["seqexpr", Q(e[1]), [Q(x) for x in e[2]], [ex(a) for a in e[3]], [ct(p) for p in gen.VOID_PARAMS[e[1]]], ex(e[4])]
+    if k == "callx":
+        _, params, ret = gen.XCALL_SIGS[e[1]]
+        return ["callx", Q(e[1]), [Q(gen.ext_token(x)) for x in e[2]], [ex(a) for a in e[3]], ct(e[4]), [ct(p) for p in params]]
+    if k == "xmacro":
+        return ["xmacro", Q(e[1]), [Q(gen.ext_token(x)) for x in e[2]], ct(e[3])]
     raise Unmodelled(k)
 
 
